@@ -113,3 +113,53 @@ func VX_C12_TooLong(args []int) {
 	vxAssert(p.Append('B') == xfer.ErrXferPipeTooLong, "256th filter refused")
 	vxCover("c12.toolong")
 }
+
+func init() { vxRegister("VX_C12_PipeLengthOnWire", VX_C12_PipeLengthOnWire) }
+
+// VX_C12_PipeLengthOnWire: a frame whose pipe has n filters (up to the
+// documented 255) round-trips and leaves the stream in sync for the frame that
+// follows it. args: n, nBody
+func VX_C12_PipeLengthOnWire(args []int) {
+	n := args[0]
+	ids := make([]byte, n)
+	for k := range ids {
+		ids[k] = byte('A' + k%3)
+	}
+	m := NewMessage()
+	m.SetSeq(3)
+	m.SetMtype(1)
+	m.SetServiceMethod("/p")
+	body := vxBytes("body", args[1])
+	orig := append([]byte{}, body...)
+	m.SetBody(body)
+	vxAssume(m.XferPipe().Append(ids...) == nil)
+	w := &vxBuf{}
+	vxAssume(RawProtoFunc(w).Pack(m) == nil)
+	m2 := NewMessage()
+	m2.SetSeq(4)
+	m2.SetMtype(3)
+	m2.SetServiceMethod("/next")
+	m2.SetBody([]byte("nx"))
+	vxAssume(RawProtoFunc(w).Pack(m2) == nil)
+	got := NewMessage(vxBytesBody())
+	pr := RawProtoFunc(w)
+	vxAssert(pr.Unpack(got) == nil, "frame with a pipe of the documented length decodes")
+	gi := got.XferPipe().IDs()
+	vxAssert(len(gi) == n, "receiver's pipe length")
+	for k := range ids {
+		if k < len(gi) {
+			vxAssert(gi[k] == ids[k], "receiver's pipe ids")
+		}
+	}
+	gb := *(got.Body().(*[]byte))
+	vxAssert(len(gb) == len(orig), "body length through pipe")
+	for k := range orig {
+		if k < len(gb) {
+			vxAssert(gb[k] == orig[k], "body through pipe")
+		}
+	}
+	got2 := NewMessage(vxBytesBody())
+	vxAssert(pr.Unpack(got2) == nil && got2.Seq() == 4 && got2.ServiceMethod() == "/next" && string(*(got2.Body().(*[]byte))) == "nx", "the following frame decodes: stream still in sync")
+	vxAssert(w.off == len(w.data), "both frames consumed exactly")
+	vxCover("c12.pipe.length")
+}
